@@ -152,7 +152,7 @@ theorem hcDo_spec (dialOk : Bytes → Bool) {s : St} (hinv : Inv s) (i : Nat) (s
           exact ⟨hc, rfl, htls, hinv.poolOk i hc hi id hidmem⟩
         · intro hc' e ne; exact absurd ne (fun ne => hmis hc' e ne)
       | none =>
-        by_cases hd : dialOk hc.addr = true
+        by_cases hd : ((hc.isTLS && !hc.cfgOk) || !dialOk hc.addr) = false
         · have e : hcDo dialOk s i scheme keep =
               ({ s with hcs := s.hcs.set i { hc with pool := if keep then [s.conns.length] else [] },
                         conns := s.conns ++ [(⟨hc.addr, hc.isTLS, i⟩ : Conn)] }, .wrote s.conns.length) := by
@@ -185,7 +185,9 @@ theorem hcDo_spec (dialOk : Bytes → Bool) {s : St} (hinv : Inv s) (i : Nat) (s
             injection h with h; subst h
             exact ⟨hc, rfl, htls, hlast⟩
           · intro hc' e ne; exact absurd ne (fun ne => hmis hc' e ne)
-        · have e : hcDo dialOk s i scheme keep = (s, .err) := by simp [hcDo, hi, hm, hp, hd]
+        · have hd' : ((hc.isTLS && !hc.cfgOk) || !dialOk hc.addr) = true := by
+            cases h : ((hc.isTLS && !hc.cfgOk) || !dialOk hc.addr) <;> simp_all
+          have e : hcDo dialOk s i scheme keep = (s, .err) := by simp [hcDo, hi, hm, hp, hd']
           rw [e]
           refine ⟨hinv, Ext.refl s, rfl, rfl, rfl, ?_, ?_⟩
           · intro id h; cases h
@@ -224,16 +226,16 @@ namespace Fh.Proofs.TlsRoute
 open Fh Fh.Model.TlsRoute
 
 /-- the state Client.Do reaches before calling HostClient.Do when the host has no HostClient yet -/
-def withClientHC (s : St) (host : Bytes) (isTLS : Bool) : St :=
-  if isTLS then { s with hcs := s.hcs ++ [⟨addMissingPort host isTLS, isTLS, []⟩], ms := (host, s.hcs.length) :: s.ms }
-  else { s with hcs := s.hcs ++ [⟨addMissingPort host isTLS, isTLS, []⟩], m := (host, s.hcs.length) :: s.m }
+def withClientHC (s : St) (host : Bytes) (isTLS : Bool) (cfgOk : Bool) : St :=
+  if isTLS then { s with hcs := s.hcs ++ [⟨addMissingPort host isTLS, isTLS, [], cfgOk⟩], ms := (host, s.hcs.length) :: s.ms }
+  else { s with hcs := s.hcs ++ [⟨addMissingPort host isTLS, isTLS, [], cfgOk⟩], m := (host, s.hcs.length) :: s.m }
 
-theorem inv_withClientHC {s : St} (hinv : Inv s) (host : Bytes) (isTLS : Bool) :
-    Inv (withClientHC s host isTLS) ∧ Ext s (withClientHC s host isTLS) ∧
-    (withClientHC s host isTLS).hcs[s.hcs.length]? = some ⟨addMissingPort host isTLS, isTLS, []⟩ := by
-  obtain ⟨h1, h2⟩ := inv_addHC hinv ⟨addMissingPort host isTLS, isTLS, []⟩ rfl
-  have hlast : (s.hcs ++ [(⟨addMissingPort host isTLS, isTLS, []⟩ : HC)])[s.hcs.length]? =
-      some ⟨addMissingPort host isTLS, isTLS, []⟩ := List.getElem?_concat_length
+theorem inv_withClientHC {s : St} (hinv : Inv s) (host : Bytes) (isTLS cfgOk : Bool) :
+    Inv (withClientHC s host isTLS cfgOk) ∧ Ext s (withClientHC s host isTLS cfgOk) ∧
+    (withClientHC s host isTLS cfgOk).hcs[s.hcs.length]? = some ⟨addMissingPort host isTLS, isTLS, [], cfgOk⟩ := by
+  obtain ⟨h1, h2⟩ := inv_addHC hinv ⟨addMissingPort host isTLS, isTLS, [], cfgOk⟩ rfl
+  have hlast : (s.hcs ++ [(⟨addMissingPort host isTLS, isTLS, [], cfgOk⟩ : HC)])[s.hcs.length]? =
+      some ⟨addMissingPort host isTLS, isTLS, [], cfgOk⟩ := List.getElem?_concat_length
   cases isTLS with
   | true =>
     refine ⟨⟨h1.mOk, ?_, h1.poolOk, h1.connOk⟩, ⟨h2.hcKeep, h2.connKeep⟩, hlast⟩
@@ -253,21 +255,21 @@ theorem inv_withClientHC {s : St} (hinv : Inv s) (host : Bytes) (isTLS : Bool) :
     · exact h1.mOk k j hm
 
 /-- what Client.Do guarantees -/
-theorem clientDo_spec (dialOk : Bytes → Bool) {s : St} (hinv : Inv s) (scheme host : Bytes) (keep : Bool) :
-    Inv (clientDo dialOk s scheme host keep).1 ∧ Ext s (clientDo dialOk s scheme host keep).1 ∧
-    (∀ id, (clientDo dialOk s scheme host keep).2 = .wrote id →
-      ∃ (cn : Conn) (hc : HC), (clientDo dialOk s scheme host keep).1.conns[id]? = some cn ∧
+theorem clientDo_spec (dialOk : Bytes → Bool) {s : St} (hinv : Inv s) (scheme host : Bytes) (keep : Bool) (cfgOk : Bool := true) :
+    Inv (clientDo dialOk s scheme host keep cfgOk).1 ∧ Ext s (clientDo dialOk s scheme host keep cfgOk).1 ∧
+    (∀ id, (clientDo dialOk s scheme host keep cfgOk).2 = .wrote id →
+      ∃ (cn : Conn) (hc : HC), (clientDo dialOk s scheme host keep cfgOk).1.conns[id]? = some cn ∧
         cn.tls = isHTTPS scheme ∧ cn.addr = addMissingPort host (isHTTPS scheme) ∧
-        (clientDo dialOk s scheme host keep).1.hcs[cn.owner]? = some hc ∧ hc.isTLS = isHTTPS scheme) ∧
-    ((clientDo dialOk s scheme host keep).2 ≠ .mismatch) := by
+        (clientDo dialOk s scheme host keep cfgOk).1.hcs[cn.owner]? = some hc ∧ hc.isTLS = isHTTPS scheme) ∧
+    ((clientDo dialOk s scheme host keep cfgOk).2 ≠ .mismatch) := by
   by_cases hcomma : host.contains 44 = true
-  · have e : clientDo dialOk s scheme host keep = (s, .err) := by unfold clientDo; rw [if_pos hcomma]
+  · have e : clientDo dialOk s scheme host keep cfgOk = (s, .err) := by unfold clientDo; rw [if_pos hcomma]
     rw [e]
     refine ⟨hinv, Ext.refl s, ?_, ?_⟩
     · intro id h; cases h
     · intro h; cases h
   · by_cases hsch : (!isHTTPS scheme && !isHTTP scheme) = true
-    · have e : clientDo dialOk s scheme host keep = (s, .err) := by
+    · have e : clientDo dialOk s scheme host keep cfgOk = (s, .err) := by
         unfold clientDo; rw [if_neg hcomma, if_pos hsch]
       rw [e]
       refine ⟨hinv, Ext.refl s, ?_, ?_⟩
@@ -301,7 +303,7 @@ theorem clientDo_spec (dialOk : Bytes → Bool) {s : St} (hinv : Inv s) (scheme 
           · split at hmm <;> cases hmm
       cases hl : lookup host (if isHTTPS scheme then s.ms else s.m) with
       | some i =>
-        have e : clientDo dialOk s scheme host keep = hcDo dialOk s i scheme keep := by
+        have e : clientDo dialOk s scheme host keep cfgOk = hcDo dialOk s i scheme keep := by
           unfold clientDo; rw [if_neg hcomma, if_neg hsch]; simp only [hl]
         rw [e]
         cases ht : isHTTPS scheme with
@@ -316,11 +318,11 @@ theorem clientDo_spec (dialOk : Bytes → Bool) {s : St} (hinv : Inv s) (scheme 
           have := key s i hc hinv (Ext.refl s) e0 (by rw [t0, ht]) (by rw [a0, ht])
           rw [ht] at this; exact this
       | none =>
-        have e : clientDo dialOk s scheme host keep =
-            hcDo dialOk (withClientHC s host (isHTTPS scheme)) s.hcs.length scheme keep := by
+        have e : clientDo dialOk s scheme host keep cfgOk =
+            hcDo dialOk (withClientHC s host (isHTTPS scheme) cfgOk) s.hcs.length scheme keep := by
           unfold clientDo; rw [if_neg hcomma, if_neg hsch]; simp only [hl, withClientHC]
         rw [e]
-        obtain ⟨i1, i2, i3⟩ := inv_withClientHC hinv host (isHTTPS scheme)
+        obtain ⟨i1, i2, i3⟩ := inv_withClientHC hinv host (isHTTPS scheme) cfgOk
         exact key _ _ _ i1 i2 i3 rfl rfl
 
 end Fh.Proofs.TlsRoute
